@@ -11,7 +11,7 @@ ASSUMPTIONS = ["box extents independent integers in [8,48]; cutoff integer in [1
                "input map: arbitrary real voxel function (uninterpreted)", "Gaussian widths 0 (hard edge, decided exactly) and 2, 3 (Gaussian = opaque operator with range contract)"]
 OUTSIDE = ["shape of the Gaussian edge (1 inside cutoff-4*sigma-1, 0 outside cutoff+4*sigma+1, monotone): numerics of skimage.filters.gaussian",
            "[0,1] range of the band-pass gain with two different Gaussians", "linearity / shift-commutation / realness follow from the term shape Real(IFFT(FFT(x)*G)) with G independent of x (structural consequence, not re-derived numerically)"]
-WITNESS_ONLY = ['band-pass map = difference of the two low-pass maps over the WHOLE box (h_bandpass): compared voxel by voxel by the concrete run (the symbolic obligation states it at one symbolic frequency)', 'Gaussian edge profile (gain 1 inside cutoff-4*sigma-1, 0 outside cutoff+4*sigma+1; h_soft_edge): evaluated with the real skimage only on the concrete witness input of each path - these two obligations exist only in the concrete run and are never counted as discharged']
+WITNESS_ONLY = ['float-level: hard low-pass gain over the whole spectrum of 48^3 / 47^3 maps equals the integer-radius predicate for every cutoff 1..23 (h_lowpass_hard cubic job, concrete run)', 'band-pass map = difference of the two low-pass maps over the WHOLE box (h_bandpass): compared voxel by voxel by the concrete run (the symbolic obligation states it at one symbolic frequency)', 'Gaussian edge profile (gain 1 inside cutoff-4*sigma-1, 0 outside cutoff+4*sigma+1; h_soft_edge): evaluated with the real skimage only on the concrete witness input of each path - these two obligations exist only in the concrete run and are never counted as discharged']
 BOUNDS = {"quick": {"box": "8..48 per axis symbolic"}, "thorough": {"box": "8..48 per axis symbolic"}}
 EXPECTED_EXCEPTIONS = ()
 OPTS = {"qtimeout": 30.0}
@@ -103,6 +103,23 @@ def h_lowpass_hard(env, kind="lowpass", cubic=False):
         inside = env.le(sum(v * v for v in q), r * r)
         env.check("gain_inside_cutoff_case%d" % case, env.implies(env.and_(inside, *hyp), env.eq(g, 1.0 if one_inside else 0.0)))
         env.check("gain_beyond_cutoff_case%d" % case, env.implies(env.and_(env.not_(inside), *hyp), env.eq(g, 0.0 if one_inside else 1.0)))
+    if env.mode == "conc" and cubic:
+        # float-level clause (concrete run only): the hard gain over the WHOLE spectrum equals the integer predicate
+        # qx^2+qy^2+qz^2 <= r^2 for every integer cutoff 1..23 on a 48^3 and a 47^3 map - components whose radius is exactly
+        # the cutoff belong to the pass band
+        bad = []
+        for N in (48, 47):
+            xx = np.random.default_rng(5).standard_normal((N, N, N))
+            X = np.fft.fftn(xx)
+            q = np.meshgrid(*[np.fft.fftfreq(N) * N for _ in range(3)], indexing="ij")
+            rad2 = np.rint(q[0] ** 2 + q[1] ** 2 + q[2] ** 2).astype(int)
+            for rr in range(1, 24):
+                yy = getattr(cm, kind)(xx, fourier_pixels=rr, gaussian=0)
+                G = (np.fft.fftn(np.asarray(yy, dtype=float)) / X).real
+                expG = (rad2 <= rr * rr) if kind == "lowpass" else (rad2 > rr * rr)
+                if np.max(np.abs(G - expG)) > 1e-6:
+                    bad.append((N, rr))
+        env.check("whole_spectrum_hard_gain_matches_integer_radius_predicate", len(bad) == 0)
 
 
 def h_complement(env, sigma=2):
